@@ -374,9 +374,9 @@ def run(ctx):
     ctx.check("contextmanager" in decos or "contextlib.contextmanager" in decos, "R12.5", "ignore_fields_for_comparison:decorator",
               "not a @contextmanager", cmgr, "@contextmanager")
 
-    # ------------------------------------------------------------------ R12.6 elements of typed lists
+    # ------------------------------------------------------------------ R12.7 elements of typed lists
     from .packer_common import check_typedlist_pack
-    check_typedlist_pack(ctx, "R12.6")
+    check_typedlist_pack(ctx, "R12.7")
 
 
 def normaliser_capability(prog, base, hs):
